@@ -1,7 +1,12 @@
 --------------------------- MODULE MC_GeomFeatures ---------------------------
 (***************************************************************************)
 (* Enumeration machine for C05.                                            *)
-(*  Init : every geometry of the bounded universe.  Geometries of          *)
+(*  Init : every HISTORY of the bounded universe: a sequence of geometries *)
+(*         converted one after the other in the same process.  Every      *)
+(*         geometry of the universe is a history of length 1; the longer   *)
+(*         ones are REGROUPINGS of one vertex sequence (same type, same    *)
+(*         flattened numbers, different nesting of parts / rings).         *)
+(*         Geometries of                                                   *)
 (*         different kinds have different shapes, so the state holds them  *)
 (*         as (kind, token string) -- the encoding of GeomValidate -- and  *)
 (*         Geo rebuilds the GeomModel record.                              *)
@@ -9,13 +14,19 @@
 (*         Convert (conversion.py) ; ReadBounds (compute_bounds reads the  *)
 (*         bounds of the converted shape) ; Features (features.py, per-type*)
 (*         functions) ; Anchors (get_geometry_point's selector table).     *)
+(*         NextGeom then starts the pipeline again for the next geometry   *)
+(*         of the history WITH NO STATE CARRIED OVER.  (Memo = "flat" is   *)
+(*         the seeded variant kept for history/MC_GeomFeatures_memo.cfg:   *)
+(*         Convert looks its result up under the flattened numbers.)       *)
 (*  Invariants: Impl => Req for each stage, and the consistency laws of    *)
 (*         Bounds / Feat / Anchor2 themselves.                             *)
 (***************************************************************************)
 EXTENDS GeomFeatures, TLC, Json
-CONSTANTS Tier               \* "quick" | "thorough" | "cov" (a small sub-universe of both, run with -coverage: every action is taken)
-VARIABLES kind, toks, pc, shape, sb, feat, anch
-vars == <<kind, toks, pc, shape, sb, feat, anch>>
+CONSTANTS Memo,              \* "none" (the implementation) | "flat" (conversion memoised under (type, flattened numbers))
+          Tier               \* "quick" | "thorough" | "cov" (a small sub-universe of both, run with -coverage: every action is taken)
+VARIABLES kind, hist, idx, pc, shape, sb, feat, anch, memo
+vars == <<kind, hist, idx, pc, shape, sb, feat, anch, memo>>
+toks == hist[idx]                             \* the geometry being processed
 
 GV == INSTANCE GeomValidate
 O == GV!OPEN
@@ -78,19 +89,66 @@ MPolys    == {K("MultiPolygon", L(<<a>>)) : a \in PolyPool}
 Cases == IF Tier = "cov" THEN Stamps \cup Intervals \cup Points \cup PolysH \cup MPolys
          ELSE Stamps \cup Intervals \cup Points \cup Boxes \cup Lines2 \cup Lines3 \cup MPoints \cup Polys \cup PolysH \cup MLines \cup MPolys
 
+(* ---- histories: regroupings of one vertex sequence ---- *)
+\* all ways to cut 1..n into consecutive blocks of at least m elements: sequences of block lengths
+RECURSIVE Comps(_, _)
+Comps(n, m) == IF n = 0 THEN {<<>>} ELSE UNION {{<<k>> \o c : c \in Comps(n - k, m)} : k \in m..n}
+RECURSIVE SumTo(_, _)
+SumTo(c, j) == IF j = 0 THEN 0 ELSE c[j] + SumTo(c, j - 1)
+\* cut the sequence xs according to the block lengths c
+Cut(xs, c) == [j \in DOMAIN c |-> SubSeq(xs, SumTo(c, j - 1) + 1, SumTo(c, j))]
+Group(xs, c) == L([j \in DOMAIN c |-> L(Cut(xs, c)[j])])                      \* a list of lists of the items
+\* multi-line strings: points strictly forward in time, so every regrouping into lines of >= 2 points is a geometry
+PtSeqs == {<<P(0, 0), P(1, 2), P(2, 1), P(3, FMAXT)>>,
+           <<P(0, 3), P(1, 0), P(2, 2), P(3, 2), P(4, 1)>>,
+           <<P(0, 1), P(1, 1), P(2, FMAXT), P(3, 0), P(4, 2), P(5, 3)>>}
+MLRegroup(ps) == {Group(ps, c) : c \in Comps(Len(ps), 2)}
+\* polygons: one ring of six points, or its two halves as shell and hole
+PolyPts == <<P(0, 0), P(4, 0), P(0, FMAXT), P(1, 1), P(2, 1), P(1, 2)>>
+PolyRegroup == {Group(PolyPts, c) : c \in Comps(6, 3)}
+\* multi-polygons: a shell and holes inside it (disjoint, or touching in a point), grouped into polygons in every way
+\* that keeps each hole either with that shell or on its own ([[shell, hole]] vs [[shell], [hole]] ...)
+RingSeqs == {<<L(Closed(RectCCW(0, 0, 4, FMAXT))), L(Closed(RectCW(1, 1, 3, 3)))>>,
+             <<L(RectCCW(0, 0, 4, FMAXT)), L(RectCW(1, 1, 2, 2)), L(RectCCW(2, 2, 3, 3))>>}
+MPRegroup(rs) == {Group(rs, c) : c \in {d \in Comps(Len(rs), 1) : \A j \in 2..Len(d) : d[j] = 1}}
+Families == {[kind |-> "MultiLineString", set |-> MLRegroup(ps)] : ps \in PtSeqs}
+            \cup {[kind |-> "Polygon", set |-> PolyRegroup]}
+            \cup {[kind |-> "MultiPolygon", set |-> MPRegroup(rs)] : rs \in RingSeqs}
+\* every ordered pair of distinct regroupings (X first, then Y),
+Pairs(S)  == {<<x, y>> : x, y \in S} \ {<<x, x>> : x \in S}
+Histories == IF Tier = "cov"
+             THEN {[kind |-> "MultiPolygon", seq |-> h] : h \in Pairs(MPRegroup(<<L(Closed(RectCCW(0, 0, 4, FMAXT))), L(Closed(RectCW(1, 1, 3, 3)))>>))}
+             ELSE UNION {{[kind |-> f.kind, seq |-> h] : h \in Pairs(f.set)} : f \in Families}
+Singles   == {[kind |-> c.kind, seq |-> <<c.toks>>] : c \in Cases}
+
 (* ---- the machine ---- *)
 NoShape == [kind |-> "", parts |-> <<>>]
-Init == /\ \E c \in Cases : kind = c.kind /\ toks = c.toks
-        /\ pc = "convert" /\ shape = NoShape /\ sb = <<>> /\ feat = <<>> /\ anch = <<>>
-Convert    == pc = "convert"  /\ shape' = ImplShape(Geo) /\ pc' = "bounds" /\ UNCHANGED <<kind, toks, sb, feat, anch>>
-ReadBounds == pc = "bounds"   /\ sb' = ImplBounds(shape) /\ pc' = "features" /\ UNCHANGED <<kind, toks, shape, feat, anch>>
-Features   == pc = "features" /\ feat' = ImplFeat(Geo, sb) /\ pc' = "anchors" /\ UNCHANGED <<kind, toks, shape, sb, anch>>
+IsNumTok(t) == GV!IsNum(t)
+NumsOf(s) == SelectSeq(s, IsNumTok)
+Nums == NumsOf(toks)                              \* the flattened coordinate numbers of the current geometry
+Init == /\ \E h \in Singles \cup Histories : kind = h.kind /\ hist = h.seq
+        /\ idx = 1 /\ pc = "convert" /\ shape = NoShape /\ sb = <<>> /\ feat = <<>> /\ anch = <<>> /\ memo = <<>>
+\* conversion.py builds the shape from the geometry and from nothing else
+Hit == {i \in DOMAIN memo : memo[i].key = Nums}
+Convert    == /\ pc = "convert" /\ pc' = "bounds"
+              /\ IF Memo = "flat" /\ Hit # {}
+                 THEN shape' = memo[CHOOSE i \in Hit : TRUE].shape /\ memo' = memo               \* (seeded variant only)
+                 ELSE /\ shape' = ImplShape(Geo)
+                      /\ memo' = IF Memo = "flat" THEN Append(memo, [key |-> Nums, shape |-> ImplShape(Geo)]) ELSE memo
+              /\ UNCHANGED <<kind, hist, idx, sb, feat, anch>>
+ReadBounds == pc = "bounds"   /\ sb' = ImplBounds(shape) /\ pc' = "features" /\ UNCHANGED <<kind, hist, idx, shape, feat, anch, memo>>
+Features   == pc = "features" /\ feat' = ImplFeat(Geo, sb) /\ pc' = "anchors" /\ UNCHANGED <<kind, hist, idx, shape, sb, anch, memo>>
 Anchors    == pc = "anchors"  /\ anch' = [i \in DOMAIN Positions |-> ImplAnchor2(Positions[i], sb)] /\ pc' = "done"
-              /\ UNCHANGED <<kind, toks, shape, sb, feat>>
-Next == Convert \/ ReadBounds \/ Features \/ Anchors
+              /\ UNCHANGED <<kind, hist, idx, shape, sb, feat, memo>>
+\* the next geometry of the history, in the same process: every working variable starts afresh
+NextGeom   == /\ pc = "done" /\ idx < Len(hist) /\ idx' = idx + 1 /\ pc' = "convert"
+              /\ shape' = NoShape /\ sb' = <<>> /\ feat' = <<>> /\ anch' = <<>>
+              /\ UNCHANGED <<kind, hist, memo>>
+Next == Convert \/ ReadBounds \/ Features \/ Anchors \/ NextGeom
 Spec == Init /\ [][Next]_vars /\ WF_vars(Next)
 
-Export == pc = "done" => PrintT(<<"CASE", ToJson([g |-> Geo])>>)
+Finished == pc = "done" /\ idx = Len(hist)
+Export == Finished => PrintT(<<"CASE", ToJson([gs |-> [i \in DOMAIN hist |-> G(kind, GV!Tree(hist[i]))]])>>)
 
 (* ---- Impl => Req ---- *)
 AtStart == pc = "bounds"      \* once per geometry, in a non-initial state (initial states are checked by one thread only)
@@ -106,8 +164,6 @@ ImplAnchorsRight   == pc = "done" => LET b == B(Geo) IN \A i \in DOMAIN Position
 LawBoundsOrdered == AtStart => LET b == B(Geo) IN b[1] <= b[3] /\ b[2] <= b[4] /\ b[1] >= 0 /\ b[2] >= 0 /\ b[4] <= FMAXT
 LawTimeOnlyBand  == (AtStart /\ kind \in TimeOnlyKinds) => LET b == B(Geo) IN b[2] = 0 /\ b[4] = FMAXT
 \* the bounds said a second way: straight from the tokens (odd numbers are times, even numbers frequencies)
-IsNumTok(t) == GV!IsNum(t)
-Nums == SelectSeq(toks, IsNumTok)
 LawBoundsFromTokens ==
     (AtStart /\ kind \notin TimeOnlyKinds) =>
        LET ns == Nums
@@ -136,9 +192,17 @@ LawAnchorsConsistent == AtStart => LET g == Geo  b == B(g)  A(pos) == AnchorOf(b
     /\ 2 * A("center")[1] = A("bottom-left")[1] + A("top-right")[1]                                    \* centre = midpoint of the diagonal
     /\ 2 * A("center")[2] = A("bottom-left")[2] + A("top-right")[2]
     /\ <<A("bottom-left")[1], A("bottom-left")[2], A("top-right")[1], A("top-right")[2]>> = [i \in 1..4 |-> 2 * b[i]]
-\* termination without a liveness graph: every step lowers a rank, and no state short of "done" is stuck
-Rank == CASE pc = "convert" -> 4 [] pc = "bounds" -> 3 [] pc = "features" -> 2 [] pc = "anchors" -> 1 [] OTHER -> 0
+\* histories: one type, one flattened vertex sequence, pairwise different nesting -- and Req tells the members apart:
+\* the conversion of one member never preserves another (so a stale conversion cannot pass ShapelyCoords)
+LawHistoryIsRegrouping == (AtStart /\ idx = 1) =>
+    /\ \A i \in DOMAIN hist : NumsOf(hist[i]) = NumsOf(hist[1])
+    /\ \A i, j \in DOMAIN hist : i # j => hist[i] # hist[j]
+LawRegroupingsDistinguished == (AtStart /\ idx = 1) =>
+    \A i, j \in DOMAIN hist : i # j => ~ShapePreserves(G(kind, GV!Tree(hist[i])), ImplShape(G(kind, GV!Tree(hist[j]))))
+NoMemo == Memo = "none" => memo = <<>>
+\* termination without a liveness graph: every step lowers a rank, and no state short of the end of the history is stuck
+Rank == 5 * (Len(hist) - idx) + (CASE pc = "convert" -> 4 [] pc = "bounds" -> 3 [] pc = "features" -> 2 [] pc = "anchors" -> 1 [] OTHER -> 0)
 RankDecreases == [][Rank' < Rank]_vars
-NeverStuck    == pc # "done" => ENABLED Next
-Terminates == <>(pc = "done")        \* checked as a liveness property on the "cov" sub-universe only
+NeverStuck    == ~Finished => ENABLED Next
+Terminates == <>Finished        \* checked as a liveness property on the "cov" sub-universe only
 =============================================================================
